@@ -24,7 +24,7 @@ use std::iter::Iterator;
 #[cfg(not(roughenough_verif))]
 use std::net::{SocketAddr, ToSocketAddrs, UdpSocket};
 #[cfg(roughenough_verif)]
-use verif_std::net::{SocketAddr, ToSocketAddrs, UdpSocket};
+use verif_std::{net::*, *};
 use std::time;
 
 use byteorder::{LittleEndian, ReadBytesExt};
